@@ -108,6 +108,27 @@ theorem pass_eq_spec (ops : FloatOps F) (rs : List (SRule F)) :
           simp only [hx] at h
           simp only [ih f' h.2]
 
+/-- **A whole `execute` call, any `max_cycles`**: every cycle is the documented pass on the facts the
+previous cycle left — a rule considered in a later cycle fires iff its condition holds of the facts
+AT THAT MOMENT (nothing evaluated in an earlier cycle is reused). Calls compose the same way: a later
+`execute` on the same engine is `cycles` again, from whatever facts the caller hands in. -/
+theorem cycles_eq_spec (ops : FloatOps F) (rs : List (SRule F)) :
+    ∀ (n : Nat) (f : Facts F), Spec.wfCycles ops n f rs = true →
+      cycles ops n f (rs.map compileRule) = Spec.cycles ops n f rs := by
+  intro n
+  induction n with
+  | zero => intro f _; rfl
+  | succ n ih =>
+    intro f h
+    simp only [Spec.wfCycles, Bool.and_eq_true] at h
+    have hp := pass_eq_spec ops rs f h.1
+    simp only [cycles, Spec.cycles, hp]
+    by_cases hc : ((Spec.pass ops f rs).error.isSome || (Spec.pass ops f rs).fired == 0) = true
+    · simp only [hc, if_true]
+    · have h2 := h.2
+      simp only [hc, Bool.false_eq_true, if_false] at h2 ⊢
+      rw [ih _ h2]
+
 /-- **Store then read.** After `field = v` the condition-side lookup of `field` returns `v`, for
 every shape of the store: root missing, root not an object, nested object, deeper missing link
 (nested write first, flat-key fallback otherwise). -/
@@ -259,5 +280,20 @@ example : isIntV (match Spec.field (setField exFacts ['a', '.', 'x'] (.int 1)) [
 example : isIntV (match Spec.field (setField exFacts ['o', '.', 'p', '.', 'q'] (.int 1)) ['o', '.', 'p', '.', 'q'] with
   | some v => .ok v | none => .error .notFound) 1 = true := by decide
 example : Spec.wfRhs toyOps exFacts (.expr exExpr) = true := by decide
+
+/-- `when q >= floor + step then floor = floor + step` with q = 23, floor = 0, step = 10: true for
+floor = 0 and 10, false for 20 — two firings, the third cycle fires nothing and ends the call -/
+def exLoop : List (SRule Int) :=
+  [{ name := 0,
+     cond := .leaf (.fieldCmp ['q'] .ge (.expr (.bin (.term (.atom (.tok ['f', 'l']))) 1 .add 1 (.atom (.tok ['s', 't']))))),
+     actions := [.set ['f', 'l'] (.expr (.bin (.term (.atom (.tok ['f', 'l']))) 1 .add 1 (.atom (.tok ['s', 't']))))] }]
+
+def exLoopFacts : Facts Int := [(['q'], .int 23), (['f', 'l'], .int 0), (['s', 't'], .int 10)]
+
+example : Spec.wfCycles toyOps 5 exLoopFacts exLoop = true := by decide
+example : (cycles toyOps 5 exLoopFacts (exLoop.map compileRule)).fired = 2 := by decide
+example : (cycles toyOps 5 exLoopFacts (exLoop.map compileRule)).evaluated = 3 := by decide
+example : isIntV (match Spec.field (cycles toyOps 5 exLoopFacts (exLoop.map compileRule)).final ['f', 'l'] with
+  | some v => .ok v | none => .error .notFound) 20 = true := by decide
 
 end C01
